@@ -122,23 +122,49 @@ func runC20(c *Ctx) {
 
 	// ---------- decoder: the number branches at the head of the command loop
 	decFD := c.funcDecl("type1", "decodeInfo", "decodeCharString")
-	var numIf *ast.IfStmt
+	// the statement that decodes numbers: the first if chain or tagless switch in the command
+	// loop whose conditions compare the operator byte (a value of type t1op) with constants
+	var numIf ast.Stmt
 	var opVar types.Object
-	ast.Inspect(decFD.Body, func(n ast.Node) bool {
-		ifs, ok := n.(*ast.IfStmt)
-		if !ok || numIf != nil {
-			return true
-		}
-		// if op >= 32 && op <= 246
-		for _, id := range identsOf(ifs.Cond) {
+	isOpVar := func(e ast.Expr) types.Object {
+		for _, id := range identsOf(e) {
 			if v, ok := info.ObjectOf(id).(*types.Var); ok && v.Type().String() == "seehuhn.de/go/postscript/type1.t1op" {
-				if be, ok := ifs.Cond.(*ast.BinaryExpr); ok && be.Op == token.LAND {
-					numIf, opVar = ifs, v
+				return v
+			}
+		}
+		return nil
+	}
+	ast.Inspect(decFD.Body, func(n ast.Node) bool {
+		if numIf != nil {
+			return false
+		}
+		switch st := n.(type) {
+		case *ast.IfStmt:
+			if be, ok := ast.Unparen(st.Cond).(*ast.BinaryExpr); ok && (be.Op == token.LAND || be.Op == token.LEQ || be.Op == token.GEQ || be.Op == token.LSS || be.Op == token.GTR) {
+				if v := isOpVar(st.Cond); v != nil {
+					numIf, opVar = st, v
+				}
+			}
+		case *ast.SwitchStmt:
+			if st.Tag == nil && len(st.Body.List) > 0 {
+				if cl := st.Body.List[0].(*ast.CaseClause); len(cl.List) > 0 {
+					if v := isOpVar(cl.List[0]); v != nil {
+						numIf, opVar = st, v
+					}
 				}
 			}
 		}
 		return true
 	})
+	// the charstring bytes: the []byte parameter of the decoder
+	var codeObj types.Object
+	for _, fl := range decFD.Type.Params.List {
+		if sl, ok := info.TypeOf(fl.Type).Underlying().(*types.Slice); ok {
+			if b, ok := sl.Elem().Underlying().(*types.Basic); ok && b.Kind() == types.Uint8 && len(fl.Names) > 0 {
+				codeObj = info.Defs[fl.Names[0]]
+			}
+		}
+	}
 	decode := func(b []int64) (val int64, used int, isNum bool, err error) {
 		defer func() {
 			if r := recover(); r != nil {
@@ -153,7 +179,7 @@ func runC20(c *Ctx) {
 		env.hook = func(e ast.Expr) (aval, bool) {
 			switch e := e.(type) {
 			case *ast.IndexExpr:
-				if id, ok := e.X.(*ast.Ident); ok && id.Name == "code" {
+				if id, ok := e.X.(*ast.Ident); ok && info.ObjectOf(id) == codeObj {
 					k, ok := constIntOf(info, e.Index)
 					if ok && int(k) < len(b) {
 						return aval{i: b[k]}, true
@@ -161,7 +187,7 @@ func runC20(c *Ctx) {
 				}
 			case *ast.CallExpr:
 				if id, ok := e.Fun.(*ast.Ident); ok && id.Name == "len" && len(e.Args) == 1 {
-					if a, ok := e.Args[0].(*ast.Ident); ok && a.Name == "code" {
+					if a, ok := e.Args[0].(*ast.Ident); ok && info.ObjectOf(a) == codeObj {
 						return aval{i: int64(len(b))}, true
 					}
 				}
